@@ -47,7 +47,7 @@ Print Assumptions C16_refuted.
       the top level with positional / keyword / scalar-literal default arguments, calls as expressions and statements, return,
       recursion bounded by the fuel); list comprehensions with and without filter and with several loop names; for loops with
       several names; for / comprehensions over range(...) with a positive step; the builtins len, str of scalars, bool, any, all,
-      reversed; dict literals whose keys are strictly ascending, indexing of lists / strings / dicts, `in` on lists of scalars and
+      reversed, sorted without key (on ints only or strings only), min, max; dict literals whose keys are strictly ascending, indexing of lists / strings / dicts, `in` on lists of scalars and
       on dicts, get / keys / values; join, split with a separator, startswith, endswith, upper, lower - then the asp run and the
       CPython run print exactly the reference run's globals, up to the spare capacity the asp hook reports for a list built by a
       filtered comprehension (ostrip_outcome; CPython has no such thing).  Kept OUT by the reference evaluator: defaults that are
@@ -185,7 +185,7 @@ Proof. vm_compute. repeat split. Qed.
        def f(a, b=2): return a + b            x = f(1); y = f(1, b=5)
        def fact(n): (if n <= 1: return 1); return n * fact(n - 1)          z = fact(5)
        l = [i * 2 for i in range(4) if i > 0]; t = 0; for i in range(1, 4): t += i
-       m = len(l); r = reversed(l); a = any([0, m]); u = "-".join([str(i) for i in l])
+       m = len(l); r = reversed(l); a = any([0, m]); mx = max(l); so = sorted([3, 1, 2]); u = "-".join([str(i) for i in l])
        d = {"a": 1, "b": 2}; v = d["a"]; w = d.get("c", 7); ks = d.keys(); e = "a" in d
        sp = "a,b".split(","); sw = u.startswith("2-"); up = "ab".upper()
    is in the fragment and its checked reference run succeeds with the globals below, so both dialects print them; the
@@ -216,6 +216,8 @@ Definition pure2_example : prog :=
     SAssign (s "m") (ve (XCall (s "len") [pa (id (s "l"))]));
     SAssign (s "r") (ve (XCall (s "reversed") [pa (id (s "l"))]));
     SAssign (s "a") (ve (XCall (s "any") [pa (ve (XList [lit 0; id (s "m")]))]));
+    SAssign (s "mx") (ve (XCall (s "max") [pa (id (s "l"))]));
+    SAssign (s "so") (ve (XCall (s "sorted") [pa (ve (XList [lit 3; lit 1; lit 2]))]));
     SAssign (s "u") (ve (XMeth (XStr (s "-")) (s "join") [ve (XComp (ve (XCall (s "str") [pa (id (s "i"))])) [s "i"] (id (s "l")) None)]));
     (* 4. dicts *)
     SAssign (s "d") (ve (XDict [(st (s "a"), lit 1); (st (s "b"), lit 2)]));
@@ -240,7 +242,8 @@ Example C16_partial_pure2_nonvacuous :
           [(s "a", OBool true); (s "d", ODict false [(s "a", OInt 1%Z); (s "b", OInt 2%Z)]); (s "e", OBool true);
            (s "f", OFunc (s "f")); (s "fact", OFunc (s "fact")); (s "i", OInt 3%Z);
            (s "ks", OList false 0 [OStr (s "a"); OStr (s "b")]); (s "l", OList false 0 [OInt 2%Z; OInt 4%Z; OInt 6%Z]);
-           (s "m", OInt 3%Z); (s "r", OList false 0 [OInt 6%Z; OInt 4%Z; OInt 2%Z]);
+           (s "m", OInt 3%Z); (s "mx", OInt 6%Z); (s "r", OList false 0 [OInt 6%Z; OInt 4%Z; OInt 2%Z]);
+           (s "so", OList false 0 [OInt 1%Z; OInt 2%Z; OInt 3%Z]);
            (s "sp", OList false 0 [OStr (s "a"); OStr (s "b")]); (s "sw", OBool true); (s "t", OInt 6%Z);
            (s "u", OStr (s "2-4-6")); (s "up", OStr (s "AB")); (s "v", OInt 1%Z); (s "w", OInt 7%Z); (s "x", OInt 3%Z);
            (s "y", OInt 6%Z); (s "z", OInt 120%Z)]
